@@ -117,6 +117,29 @@ CLAIMED = {
         note="Linearity is established per recorded execution shape; the operator-name -> category table of the tracer is trusted.",
         technique="TLA+ op-level linearity acceptor with TLC-checked soundness + code->spec validation of aten execution traces",
         design="9/C07"),
+    "C15": dict(
+        text="spec/Session.tla models what outlives a call (default dtype, COEFF_CACHE keys, module buffers, version counters of "
+             "arguments/buffers/cached tables) and splits calls into stages at the library's hook points; TLC checks the action "
+             "property NoForeignWrite and the invariant Deterministic over all interleavings (exhaustively to depth 6, by "
+             "simulation beyond) and that a negative model with a memoised helper violates Deterministic. TLC-generated "
+             "behaviours are replayed into the real library under a deterministic scheduler that preempts worker threads only "
+             "at hook points, so the chosen interleaving is the one that runs: arguments, buffers and cached tables are "
+             "fingerprinted bitwise, every result is compared with the same call made in a fresh process, earlier results are "
+             "re-fingerprinted at the end; plus an 8-thread free-running stress probe.",
+        note="Preemption only at hook points; pool of 6 module configurations x 3 argument variants x 2 dtypes x grad on/off.",
+        technique="TLA+ session state machine (TLC exhaustive + simulation) + deterministic-scheduler replay of generated behaviours",
+        design="9/C15"),
+    "C16": dict(
+        text="The Session model carries the dtype lattice (Construct reads the default dtype, To converts buffers, temporaries take "
+             "the input dtype); TLC checks OutDtype and that results depend on the current buffer dtype only; behaviours rich "
+             "in conversions are replayed (dtype of every output; converted vs constructed modules). Numerically: "
+             "max|y32-y64| <= 64*eps32*(gain*max|x|+bias) with the exact gain (largest absolute row sum) of the float64 "
+             "operator extracted from the real module, on gaussian / 8-decade dynamic range / cancellation / alternating / "
+             "1e6-scaled inputs for DWT, SWT, DTCWT and both scattering layers; strided, sliced, channels-last and expanded "
+             "inputs against contiguous copies; None paths keep the dtype.",
+        note="The float32 accuracy clause is numeric (TLC has no reals); its bound is derived from the extracted operator.",
+        technique="TLA+ session/dtype state machine (TLC) + replay of conversion behaviours + operator-derived float32 error bound",
+        design="9/C16"),
     "C13": dict(
         text="TLC checks the a-trous stage model (periodic index padding, dilated correlation with the flipped filter) "
              "against swt's definition for every (N, L, dilation), full resolution, circular shift-equivariance as an "
